@@ -198,17 +198,23 @@ def check_confine(ctx: Ctx) -> None:
     repo = ctx.repo
     R = 'R17.2'
     idx_mod = repo.module(IDX)
+    # one pass over the package: calls by method name, resolved only for those (typed receivers exactly, untyped ones by name)
+    wanted = {m for ms in MUTATORS.values() for m in ms}
+    cand = []
+    for fn in repo.all_functions():
+        for c in calls_in(fn.node):
+            if isinstance(c.func, ast.Attribute) and c.func.attr in wanted:
+                cand.append((fn, c, repo.callees(fn, c)))
     n_sites = 0
     for cls, meths in MUTATORS.items():
         for meth in meths:
-            target = f'{IDX}.{cls}.{meth}'
-            repo.fn(target)
+            target = repo.fn(f'{IDX}.{cls}.{meth}').qualname
             private = meth.startswith('_')
-            sites = repo.call_sites_of(target, exact=not private)
+            sites = [(fn, c) for fn, c, cal in cand if target in cal or ('?' + target in cal and (private or fn.module is idx_mod))]
             n_sites += len(sites)
             bad = [(fn, c) for fn, c in sites if fn.module is not idx_mod]
             ctx.ob(R, f'{cls}.{meth} (index mutator) is called only from engines/indexing.py ({len(sites)} call sites'
-                   + ('; untyped receivers counted by method name' if private else '') + ')', not bad,
+                   + ('; untyped receivers counted by method name' if private else '; untyped receivers counted inside indexing.py') + ')', not bad,
                    loc=bad[0][0].loc(bad[0][1]) if bad else idx_mod.relpath(), construct=f'{IDX}:confine:{cls}.{meth}',
                    detail='; '.join(f'{fn.short}:{norm(c, 60)}' for fn, c in bad[:4]))
     ctx.require_sites(R, 'call sites of the index mutators', n_sites, 9)
